@@ -5,11 +5,11 @@ import (
 	"bufio"
 	"encoding/json"
 	"flag"
-	"path/filepath"
-	"strings"
 	"fmt"
 	"os"
+	"path/filepath"
 	"sort"
+	"strings"
 
 	"verif/rcheck/engine"
 	"verif/rcheck/rules"
